@@ -82,3 +82,69 @@ pub fn as_nnfa(ac: &AhoCorasick) -> Option<&crate::nfa::noncontiguous::NFA> {
         None
     }
 }
+
+// ---- the `impl Automaton for Arc<dyn AcAutomaton>` forwarders, one by one
+// (stream search and the iterators of the top-level searcher go through them)
+
+pub fn fwd_meta(ac: &AhoCorasick) -> (usize, usize, usize, MatchKind, bool) {
+    let a = &ac.aut;
+    (
+        Automaton::patterns_len(a),
+        Automaton::min_pattern_len(a),
+        Automaton::max_pattern_len(a),
+        Automaton::match_kind(a),
+        Automaton::prefilter(a).is_some(),
+    )
+}
+
+pub fn fwd_pattern_len(ac: &AhoCorasick, pid: PatternID) -> usize {
+    Automaton::pattern_len(&ac.aut, pid)
+}
+
+pub fn fwd_start_state(
+    ac: &AhoCorasick,
+    anchored: Anchored,
+) -> Result<StateID, MatchError> {
+    Automaton::start_state(&ac.aut, anchored)
+}
+
+pub fn fwd_next_state(
+    ac: &AhoCorasick,
+    anchored: Anchored,
+    sid: StateID,
+    byte: u8,
+) -> StateID {
+    Automaton::next_state(&ac.aut, anchored, sid, byte)
+}
+
+/// (is_special, is_dead, is_match, is_start)
+pub fn fwd_flags(ac: &AhoCorasick, sid: StateID) -> (bool, bool, bool, bool) {
+    let a = &ac.aut;
+    (
+        Automaton::is_special(a, sid),
+        Automaton::is_dead(a, sid),
+        Automaton::is_match(a, sid),
+        Automaton::is_start(a, sid),
+    )
+}
+
+pub fn fwd_match_len(ac: &AhoCorasick, sid: StateID) -> usize {
+    Automaton::match_len(&ac.aut, sid)
+}
+
+pub fn fwd_match_pattern(
+    ac: &AhoCorasick,
+    sid: StateID,
+    index: usize,
+) -> PatternID {
+    Automaton::match_pattern(&ac.aut, sid, index)
+}
+
+/// State of a freshly constructed top-level stream iterator (see
+/// `automaton::verif::stream_parts`).
+#[cfg(feature = "std")]
+pub fn stream_parts<'a, R>(
+    it: &StreamFindIter<'a, R>,
+) -> (StateID, StateID, usize, usize, usize, usize, usize, usize) {
+    crate::automaton::verif::stream_parts(&it.0)
+}
